@@ -74,8 +74,10 @@ fn amt(r: &mut Rd) -> Amt {
 }
 
 pub fn decode_cfg(r: &mut Rd) -> Cfg {
-    let n_vals = 1 + r.u8() % 5;
-    let n_reg = 1 + r.u8() % n_vals;
+    let nb = r.u8();
+    let n_vals = if nb % 16 == 15 { 6 + (nb / 16) % 25 } else { 1 + nb % 5 };
+    let rb = r.u8();
+    let n_reg = if rb % 4 == 0 { n_vals } else { 1 + (rb / 4) % n_vals };
     Cfg {
         n_vals,
         n_reg,
@@ -120,7 +122,11 @@ pub fn decode_op(r: &mut Rd) -> Op {
         20 | 21 => Op::UpdateIndex { by: if r.u8() % 6 == 0 { 1 + r.u8() % 3 } else { 0 } },
         22 => Op::CheckSlashing { u: r.u8() % 6 },
         23 | 24 | 25 | 26 => Op::Advance { clock: clock(r) },
-        27 | 28 => Op::Slash { v: r.u8() % 5, permille: 1 + r.u16() % 500, unbonding: r.bool() },
+        27 | 28 => {
+            let b = r.u8();
+            let pm = r.u16();
+            Op::Slash { v: if b % 8 == 7 { 255 } else { b % 5 }, permille: if pm % 5 == 4 { [1u16, 10, 100, 500][(pm / 5) as usize % 4] } else { 1 + pm % 500 }, unbonding: r.bool() }
+        }
         29 => Op::Donate { to: r.u8() % 3, coin: r.u8() % 5, amt: amt(r) },
         30 => match r.u8() % 3 {
             0 => Op::AddVal { v: r.u8() % 5 },
